@@ -281,6 +281,14 @@ def handle (op : String) (args : List String) : String :=
       | .ok (e', _) => okE e'
       | .error err => "err\t" ++ err.render)
     | _, _ => bad
+  | "backend", [c, e] => match c.toNat?, parseExpr e with
+    | some c, some e => (match backend (400 * e.size + 800) c e with
+      | .ok e' => okE e'
+      | .error err => "err\t" ++ err.render)
+    | _, _ => bad
+  | "backendFront", [e] => match parseExpr e with
+    | some e => okE (backendFront e)
+    | none => bad
   | "evStrict", [ds, env, e] => match parseVal ds, parseEnv env, parseExpr e with
     | some ds, some env, some e => resStr (ev (driverWorld ds) (Env.ofList env.reverse) e)
     | _, _, _ => bad
